@@ -3,7 +3,9 @@
 (* Trace validation for Ibb.  The trace (ndjson, written by `qxv ibb`)     *)
 (* holds, per step of the harness network, the step with its arguments and *)
 (* what the two real QXmppTransferManagers showed afterwards:              *)
-(*  {"e":"Reset","case":"i7","n":3,"size":12000,"bs":4096,"sender":"real"} *)
+(*  {"e":"Reset","case":"i7","n":3,"size":12000,"bs":4096,"sender":"real",  *)
+(*   "ann":"both|size|hash|none"}   what the offer announced (set by the    *)
+(*   harness: the fields of QXmppTransferFileInfo it filled in)             *)
 (*  {"e":"RDeliver","o":{"rs":"Transfer","re":"NoError","rw":1,            *)
 (*      "ss":"Transfer","se":"NoError","held":0,"eq":0,                    *)
 (*      "s2r":[{"t":"data","seq":1,"pay":2,"sid":"ok","from":"S"}],        *)
@@ -39,7 +41,7 @@ VARIABLES l, cid, mon, viol, ndiv, divs, dflag, ncases, nfaulted, nclean
 
 tvars == <<vars, l, cid, mon, viol, ndiv, divs, dflag, ncases, nfaulted, nclean>>
 
-Mon0 == [nflt |-> 0, offered |-> FALSE, kinds |-> <<>>]
+Mon0 == [nflt |-> 0, offered |-> FALSE, kinds |-> <<>>, ann |-> "both"]
 
 TInit ==
     /\ Init /\ n = 0
@@ -66,23 +68,24 @@ ModelAct(ev) ==
       [] OTHER             -> FALSE
 
 MonNext(m, ev) ==
-    [nflt |-> IF ev.e = "Fault" THEN m.nflt + 1 ELSE m.nflt,
+    [ann |-> m.ann,
+     nflt |-> IF ev.e = "Fault" THEN m.nflt + 1 ELSE m.nflt,
      offered |-> m.offered \/ ev.e = "Offer",
      kinds |-> IF ev.e = "Fault" THEN Append(m.kinds, ev.k) ELSE m.kinds]
 
 \* property predicates on logged facts
-FailedStep(o) ==
-    {p \in {"Safe"} : o.eq # -1 /\ ~P_Safe(o.rs, o.re, o.eq = 1)}
+FailedStep(m, o) ==
+    {p \in {"Safe"} : o.eq # -1 /\ ~P_Safe(m.ann, o.rs, o.re, o.eq = 1)}
 FailedEnd(m, o) ==
     LET q == m.offered /\ Len(o.s2r) = 0 /\ Len(o.r2s) = 0 IN
     {p \in {"Safe", "FaultDetected", "CleanSuccess"} :
-        CASE p = "Safe"          -> ~P_Safe(o.rs, o.re, o.eq = 1)
-          [] p = "FaultDetected" -> ~P_FaultDetected(m.nflt, o.rs, o.re)
+        CASE p = "Safe"          -> ~P_Safe(m.ann, o.rs, o.re, o.eq = 1)
+          [] p = "FaultDetected" -> ~P_FaultDetected(m.ann, IF m.nflt = 1 THEN m.kinds[1] ELSE "none", m.nflt, o.rs, o.re)
           [] p = "CleanSuccess"  -> ~P_CleanSuccess(m.nflt, q, o.rs, o.re, o.ss, o.se, o.eq = 1)}
 
 ResetStep(ev) ==
-    /\ Reinit(ev.n)
-    /\ cid' = ev.case /\ mon' = Mon0 /\ dflag' = FALSE /\ ncases' = ncases + 1
+    /\ Reinit(ev.n, ev.ann)
+    /\ cid' = ev.case /\ mon' = [Mon0 EXCEPT !.ann = ev.ann] /\ dflag' = FALSE /\ ncases' = ncases + 1
     /\ UNCHANGED <<viol, ndiv, divs, nfaulted, nclean>>
 
 Diverge(d, model, impl) ==
@@ -95,7 +98,7 @@ OpStep(ev) ==
     /\ \/ ModelAct(ev)
        \/ (~ENABLED ModelAct(ev)) /\ UNCHANGED vars
     /\ mon' = MonNext(mon, ev)
-    /\ viol' = viol \cup {[case |-> cid, line |-> l, prop |-> p, e |-> ev.e] : p \in FailedStep(ev.o)}
+    /\ viol' = viol \cup {[case |-> cid, line |-> l, prop |-> p, e |-> ev.e] : p \in FailedStep(mon, ev.o)}
     /\ Diverge(Proj' # Obs(ev.o), Proj', Obs(ev.o))
     /\ UNCHANGED <<cid, ncases, nfaulted, nclean>>
 
